@@ -18,7 +18,7 @@ from ..cli import digest
 
 PROP = 'C15'
 LEVEL = 'exploration'
-RULE = ('pool of 20 files: uamiv, lateral boundary, bpch, ICARTT, netCDF, '
+RULE = ('pool of 23 files: uamiv, lateral boundary, bpch, ICARTT, netCDF, '
         'IOAPI-netCDF, ARL packed-bit and one-3D content, each with its '
         'canonical extension, without extension, and (one-3D / netCDF '
         'families) under each sibling reader\'s extension, plus two '
@@ -69,12 +69,19 @@ POOL = [
     # files of a reader that is only registered by a 'reg' event of the
     # history (a user subclass defined after import)
     ('z.verifdemo', 'demo', None), ('z_noext', 'demo', None),
+    # a gridded file written on a little-endian machine (readable only with
+    # the reader's endian keyword)
+    ('a_le.bin', 'uamiv_le', None),
+    # the same RELATIVE name 'w.swap' in the process's private working
+    # directory, holding one-3D content resp. gridded content at the time of
+    # the open (a path string says nothing about what the file holds now)
+    ('rel>h.humidity', 'rel', None), ('rel>a.uamiv', 'rel', None),
 ]
 NP = len(POOL)
 # history events: format-less opens of every pool file, the late
 # registration of a reader, and opens that NAME a valid reader other than the
 # one auto-detection selects for that file
-TOKENS = [('open', n) for n, _, _ in POOL] + [
+TOKENS = [('open', n) for n, _, _ in POOL if not n.startswith('rel>')] + [
     ('reg',),
     ('openx', 'h.humidity', 'vertical_diffusivity'),
     ('openx', 'c.bpch', 'bpch1'),
@@ -85,6 +92,8 @@ TOKENS = [('open', n) for n, _, _ in POOL] + [
     ('rereg', 'humidity'), ('rereg', 'one3d'),
     # an open that asks the bpch front end for its block-walking reader
     ('openkw', 'c.bpch', 'bpch', 'reader=bpch2'),
+    ('openkw', 'a_le.bin', 'uamiv', 'endian=little'),
+    ('open', 'rel>h.humidity'), ('open', 'rel>a.uamiv'),
 ]
 NT = len(TOKENS)
 
@@ -154,9 +163,13 @@ def make_pool():
             for i in range(40)]
     img['ict'] = ('\n'.join(ict) + '\n').encode()
     img['garbage'] = b'\x07garbage\x00\x01'
+    img['uamiv_le'] = refcamx.to_little_endian_uamiv(img['uamiv'])
     img['demo'] = b'VERIFDEMO' + bytes(range(1, 12))
     for name, kind, fmt in POOL:
         p = os.path.join(d, name)
+        if kind == 'rel':
+            _pool[name] = 'rel>' + os.path.join(d, name[4:])
+            continue
         if kind == 'nc':
             if not os.path.exists(p):
                 ds = netCDF4.Dataset(p, 'w', format='NETCDF3_CLASSIC')
@@ -177,6 +190,10 @@ def observe(path, fmt=None):
     """-> (reader class name | exception type, dims, data digest)"""
     import PseudoNetCDF as pnc
     f = None
+    if path.startswith('rel>'):
+        import shutil
+        shutil.copyfile(path[4:], 'w.swap')
+        path = 'w.swap'
     try:
         f = pnc.pncopen(path, format=fmt) if fmt else pnc.pncopen(path)
         cls = type(f).__module__.split('.')[-2:] + [type(f).__name__]
@@ -267,6 +284,10 @@ def serve():
         pid = os.fork()
         if pid == 0:
             os.close(r)
+            import shutil
+            import tempfile
+            priv = tempfile.mkdtemp(dir=harness.tmproot())
+            os.chdir(priv)
             try:
                 reg0 = list(_getreader._readers)
                 grew = 0
@@ -296,6 +317,8 @@ def serve():
             except BaseException as e:
                 out = ['child-error:' + type(e).__name__, {}, '', 0]
             os.write(w, json.dumps(out).encode())
+            os.chdir('/')
+            shutil.rmtree(priv, True)
             os._exit(0)
         os.close(w)
         data = b''
@@ -374,3 +397,4 @@ def extra_coverage(agg, tier):
                              '2 re-registrations, %d opens naming another '
                              'valid reader or reader keyword)'
                              % (HLEN[tier], NT, NP, NT - NP - 3)}
+    # (the format-less opens include the two relative-name opens)
